@@ -1,6 +1,6 @@
 (* Model of the FFT propagator of lentil/propagate.py (propagate_fft, scratch_shape, _fft_shape,
    _dft_alpha, _fft2, _has_tilt, _propagate_ptype) and of lentil.util.pad for 2-d arrays, as the
-   code stands after the fix: commits cac6dc4, f003478 and 10b9a45.
+   code stands after the fix: commits cac6dc4, f003478, 10b9a45 and 1b12b57.
 
    External primitive: np.fft.fft2.  Its contract is numpy's documented definition
        fft2 x [k,l] = sum_{a,b} x[a,b] exp(-2 pi i (a k / N_r + b l / N_c))
@@ -126,7 +126,8 @@ Definition propagate_fft_N (N0 N1 : Z) (w : wavefront) (du : Qc * Qc) (shape : o
   rbind (propagate_ptype (wpt w)) (fun pt =>
   rbind (out_shape N0 N1 shape os) (fun so =>
   rbind (fft_field N0 N1 w scratch) (fun Fs =>
-  Ok (mkWf [mkField (D2 (fst Fs)) 0 0 []] so
+  (* field = lentil.pad(field, shape_out): only the part of the grid the output Wavefront covers is stored (fix 1b12b57) *)
+  Ok (mkWf [mkField (D2 (pad2 (fst Fs) (fst so) (snd so))) 0 0 []] so
            (prop_wavelength N0 N1 (wpix w) du (wz w) os)
            (fst du / zq os, snd du / zq os)%Qc (wz w) pt,
       snd Fs)))).
